@@ -201,8 +201,9 @@ class Ctx:
         gen = os.path.join(self.work, "gen")
         os.makedirs(gen, exist_ok=True)
         exe = os.path.join(VERIF, "tools", "extract", "extract")
-        if not os.path.exists(exe) or os.path.getmtime(exe) < os.path.getmtime(
-                os.path.join(VERIF, "tools", "extract", "main.go")):
+        srcdir = os.path.join(VERIF, "tools", "extract")
+        if not os.path.exists(exe) or os.path.getmtime(exe) < max(
+                os.path.getmtime(os.path.join(srcdir, f)) for f in os.listdir(srcdir) if f.endswith(".go")):
             env = dict(GOENV)
             env["GOTOOLCHAIN"] = "local"
             env["GOFLAGS"] = ""
@@ -282,7 +283,7 @@ class Ctx:
         c["evaluations"] += int(result.get("evaluations", 0))
         c["distinct_nontrivial"] += int(result.get("distinct_nontrivial", 0))
         c["traces_validated_against_impl"] += int(result.get("traces", result.get("evaluations", 0)))
-        for s in result.get("samples", [])[:6]:
+        for s in (result.get("samples") or [])[:6]:
             c["samples"].append(s)
         if result.get("rule"):
             self.rules.append(result["rule"])
